@@ -10,7 +10,7 @@ Timer variant, within a cap on the total number of yields (see inline_suites); e
 readiness instant per selecting task - all explored; the scheduler's _random for the priority-0.5 task and the
 virtual time consumed per step - deviations) are explored with mc.engine.explore within a deviation bound.
 
-PART 2 (threaded select hub, E-thr).  Ten representative programs of the same grammar run with the scheduler
+PART 2 (threaded select hub, E-thr).  Thirteen representative programs of the same grammar run with the scheduler
 thread + the select-hub thread (+ an environment thread that lets virtual time reach the fd readiness instants)
 under the controlled-thread explorer mc/thr.py, every schedule within a deviation bound.
 
@@ -54,6 +54,7 @@ OPS = {
   "F":   ("block", "False", "yield False"),
   "Se":  ("select", None, "yield Select([fd], None, None, None)"),
   "Se1": ("select", 1, "yield Select([fd], None, None, 1)"),
+  "Se0": ("select", 0, "yield Select([fd], None, None, 0)"),
   "Av":  ("again", "v", "yield Again(sub yielding a value)"),
   "As":  ("again", "s", "yield task_function(sub: Sleep(1) then yields a value)()"),
   "Ar":  ("again", "r", "yield Again(sub raising)"),
@@ -62,18 +63,39 @@ OPS = {
   "Ase": ("again", "se", "yield Again(sub: Sleep(1) then raises)"),
   "TF":  ("again", "tf", "yield task_function(plain function returning a value)()"),
   "TFr": ("again", "tfr", "yield task_function(plain function raising)()"),
+  # sub-tasks nested two deep: the called sub-task (middle) itself calls a sub-task (inner)
+  "Nv":  ("again", "nv", "yield Again(middle: v = yield Again(inner yielding a value); yields its own value)"),
+  "Nc":  ("again", "nc", "yield Again(middle: catches what Again(inner raising) throws; yields its own value)"),
+  "Nu":  ("again", "nu", "yield Again(middle: yield Again(inner raising), not caught)"),
+  "Ncs": ("again", "ncs", "yield Again(middle: catches what Again(inner: Sleep(1) then raises) throws; yields its own value)"),
+  "Nus": ("again", "nus", "yield Again(middle: yield Again(inner: Sleep(1) then raises), not caught)"),
   "W":   ("wake", None, "schedule() every blocked/ready sibling; yield 0"),
   "C":   ("cancel", None, "cancel() every Timer; yield 0"),
   "X":   ("exit", None, "yield Exit()"),
   "!":   ("raise", None, "raise"),
 }
-OPS_QUICK = ("0", "n1", "S2", "SN", "F", "Se", "Se1", "Av", "As", "Ar", "Ae", "TF", "W", "X", "!")
-OPS_EXTRA = ("S1", "S0", "n.5", "Asr", "Ase", "TFr")       # thorough, in the programs of few yields
+OPS_QUICK = ("0", "n1", "S2", "SN", "F", "Se", "Se1", "Av", "As", "Ar", "Ae", "W", "X", "!")
+OPS_NESTED = ("Nv", "Nc", "Nu", "Ncs", "Nus")
+OPS_EXTRA = ("S1", "S0", "n.5", "Se0", "Asr", "Ase", "TF", "TFr") + OPS_NESTED      # thorough, in the programs of few yields
+# quick: the nested sub-task calls and the zero-timeout Select in a small context vocabulary
+OPS_NESTED_CTX = ("0", "n1", "S2", "Se0", "SN", "W", "!", "TF") + OPS_NESTED
+# sleepers (tied deadlines, a longer one, zero timeouts) for the 3-entity quick suite
+OPS_SLEEPERS = ("0", "n1", "S2", "Se0")
 TERMINAL = ("X", "!")                                      # nothing after them can run
 SHAPE_NAME = {"v": "yields-value", "s": "sleeps-then-yields-value", "r": "raises", "e": "returns-without-yield",
               "sr": "sleeps-then-returns", "se": "sleeps-then-raises", "tf": "plain-function-value",
-              "tfr": "plain-function-raises"}
-SHAPE_EXPECT = {"v": "val", "s": "val", "tf": "val", "r": "exc", "se": "exc", "tfr": "exc", "e": "none", "sr": "none"}
+              "tfr": "plain-function-raises",
+              "nv": "calls-an-inner-sub-task-that-yields-a-value", "nc": "catches-the-exception-of-its-inner-sub-task",
+              "nu": "does-not-catch-the-exception-of-its-inner-sub-task",
+              "ncs": "catches-the-exception-of-its-inner-sub-task-that-slept", "nus": "does-not-catch-the-exception-of-its-inner-sub-task-that-slept"}
+# violation key per shape (one defect, one key: the four nested exception shapes share the delivery path)
+SHAPE_KEY = dict((k, "subtask-result:" + v) for k, v in SHAPE_NAME.items())
+SHAPE_KEY.update(nv="subtask-result:nested-value", nc="subtask-result:nested-exception", nu="subtask-result:nested-exception",
+                 ncs="subtask-result:nested-exception", nus="subtask-result:nested-exception")
+SHAPE_EXPECT = {"v": "val", "s": "val", "tf": "val", "r": "exc", "se": "exc", "tfr": "exc", "e": "none", "sr": "none",
+                "nv": "val", "nc": "val", "ncs": "val", "nu": "exc", "nus": "exc"}
+SHAPE_INNER = {"nv": "v", "nc": "r", "nu": "r", "ncs": "se", "nus": "se"}       # shape of the inner sub-task
+SLEEPING_SHAPES = ("s", "sr", "se", "ncs", "nus")
 
 # Timer variants: (recurring, expected number of callbacks when nobody else cancels, description)
 TIMERS = {
@@ -99,14 +121,14 @@ class ProgSpace (object):
   """Every ordered tuple of nent entities (task script over ops, or Timer variant) whose scripts have <= maxlen
   yields each and <= total yields together, addressable by index (nothing is materialised).  "C" (cancel the
   timers) is only in the vocabulary of programs that contain a Timer (elsewhere it would be `yield 0`)."""
-  def __init__ (self, ops, nent, total, maxlen=3):
+  def __init__ (self, ops, nent, total, maxlen=3, timers=True):
     by_plain = scripts(ops, maxlen)
     by_c = scripts(tuple(ops) + ("C",), maxlen)
     shapes = []
     def rec_shape (k, left, acc):
       if k == nent:
         shapes.append(tuple(acc)); return
-      for tv in TIMER_ORDER:
+      for tv in (TIMER_ORDER if timers else ()):
         rec_shape(k + 1, left, acc + [("T", tv)])
       for n in range(0, min(maxlen, left) + 1):
         rec_shape(k + 1, left - n, acc + [("t?", n)])
@@ -349,6 +371,7 @@ class World (object):
       if arg in ("r", "e", "sr", "se"): return R.Again(sub_gen(self, r, i, arg))
       if arg == "tf": return subs["tf_plain"](self, r, i, False)
       if arg == "tfr": return subs["tf_plain"](self, r, i, True)
+      if arg in SHAPE_INNER: return R.Again(mid_gen(self, r, i, arg))
     raise RuntimeError("unknown op %r" % (op,))
 
   # ---- oracle at every resume ----------------------------------------------------------------------
@@ -394,20 +417,21 @@ class World (object):
             self.fail("select-wake:empty-before-timeout", "%s resumed at +%s from Select with no fd ready; timeout %s"
                       % (r.name, now - T0, "None" if r.req is None else "at +%s" % (r.req - T0)))
     elif kind == "again":
-      key = "subtask-result:" + SHAPE_NAME[arg]
+      key = SHAPE_KEY[arg]
       want = SHAPE_EXPECT[arg]
+      exc_args = (r.idx, i, "inner") if arg in SHAPE_INNER else (r.idx, i)
       if not r.sub_done:
         self.fail(key, "%s resumed from its sub-task call before the sub-task finished" % r.name)
       elif want == "val":
         if got != ("subval", r.idx, i):
           self.fail(key, "%s called a sub-task that %s; it received %s" % (r.name, SHAPE_NAME[arg], _got_text(got, exc)))
       elif want == "exc":
-        if not (isinstance(exc, SubError) and exc.args == (r.idx, i)):
+        if not (isinstance(exc, SubError) and exc.args == exc_args):
           self.fail(key, "%s called a sub-task that %s; it received %s" % (r.name, SHAPE_NAME[arg], _got_text(got, exc)))
       else:
         if exc is not None or v is not None:
           self.fail(key, "%s called a sub-task that %s; it received %s" % (r.name, SHAPE_NAME[arg], _got_text(got, exc)))
-      if arg in ("s", "sr", "se") and r.sub_req is not None and now < r.sub_req:
+      if arg in SLEEPING_SHAPES and r.sub_req is not None and now < r.sub_req:
         self.fail("timed-wake-early:Sleep", "%s resumed at +%s from a sub-task that slept until +%s" % (r.name, now - T0, r.sub_req - T0))
 
   # ---- timers ---------------------------------------------------------------------------------------
@@ -471,7 +495,7 @@ class World (object):
           elif r.fd.ready_at is not None: self.fail("lost-wake:Select-fd-readable", what + "; fd readable at +%s" % (r.fd.ready_at - T0))
         elif s == "again":
           arg = OPS[r.op][1]
-          key = "subtask-result:" + SHAPE_NAME[arg]
+          key = SHAPE_KEY[arg]
           if SHAPE_EXPECT[arg] == "exc" and r.style == "target" and r.sub_done:
             # one defect whatever the sub-task's shape: the exception is thrown into the Task.run wrapper
             key = "subtask-result:exception-never-reaches-a-Task(target)-caller"
@@ -553,28 +577,63 @@ def body (w, r):
   w.end()
 
 
-def sub_gen (w, r, i, shape):
+def sub_gen (w, r, i, shape, inner=False, last=True):
+  """A sub-task (or, with inner=True, the inner sub-task of a nested call).  `last`: nothing of the call runs after it."""
   R = w.R
+  tag = ".inner" if inner else ".sub"
+  extra = ("inner",) if inner else ()
   r.sub_req = None
-  w.begin("%s.%d.sub0" % (r.name, i))
-  w.trace.append((r.name + ".sub", 0, w.now()))
+  w.begin("%s.%d%s0" % (r.name, i, tag))
+  w.trace.append((r.name + tag, 0, w.now()))
   if shape in ("s", "sr", "se"):
     r.sub_req = w.now() + 1
     y = R.Sleep(1)
     w.end()
     yield y
-    w.begin("%s.%d.sub1" % (r.name, i))
-    w.trace.append((r.name + ".sub", 1, w.now()))
+    w.begin("%s.%d%s1" % (r.name, i, tag))
+    w.trace.append((r.name + tag, 1, w.now()))
     if w.now() < r.sub_req:
       w.fail("timed-wake-early:Sleep", "%s's sub-task resumed from Sleep(1) at +%s, requested +%s" % (r.name, w.now() - T0, r.sub_req - T0))
-  r.sub_done = True
+  if last: r.sub_done = True
   w.end()
   if shape in ("v", "s"):
-    yield ("subval", r.idx, i)
+    yield ("subval", r.idx, i) + extra
   elif shape in ("r", "se"):
-    raise SubError(r.idx, i)
+    raise SubError(r.idx, i, *extra)
   else:
     return
+
+
+def mid_gen (w, r, i, shape):
+  """The middle level of a nested call: calls the inner sub-task; what it receives must be exactly what the inner
+  sub-task produced."""
+  R = w.R
+  catches = shape in ("nv", "nc", "ncs")
+  w.begin("%s.%d.mid0" % (r.name, i))
+  w.trace.append((r.name + ".mid", 0, w.now()))
+  y = R.Again(sub_gen(w, r, i, SHAPE_INNER[shape], inner=True, last=not catches))
+  w.end()
+  if not catches:
+    v = yield y                 # the inner sub-task's exception passes through to the caller
+    got = ("the value %r" % (v,))
+  else:
+    try:
+      v = yield y
+    except Exception as e:
+      got = None if (shape != "nv" and isinstance(e, SubError) and e.args == (r.idx, i, "inner")) else \
+            "the exception %s(%s)" % (type(e).__name__, ", ".join(map(repr, e.args)))
+    else:
+      got = None if (shape == "nv" and v == ("subval", r.idx, i, "inner")) else "the value %r" % (v,)
+  w.begin("%s.%d.mid1" % (r.name, i))
+  w.trace.append((r.name + ".mid", 1, w.now()))
+  if got is not None:
+    w.fail(SHAPE_KEY[shape], "%s's sub-task called an inner sub-task that %s; the sub-task received %s"
+           % (r.name, SHAPE_NAME[SHAPE_INNER[shape]], got))
+  if r.sub_req is not None and w.now() < r.sub_req:
+    w.fail("timed-wake-early:Sleep", "%s's sub-task resumed at +%s from an inner sub-task that slept until +%s" % (r.name, w.now() - T0, r.sub_req - T0))
+  r.sub_done = True
+  w.end()
+  yield ("subval", r.idx, i)
 
 
 def _tf_plain (w, r, i, raises):
@@ -766,7 +825,6 @@ def _inline_worker (item):
   rep = Report(PID, "model_checking")
   old = sys.stdout, sys.stderr
   sys.stdout = sys.stderr = _Null()
-  gc.disable()
   n = 0
   try:
     for pi in range(lo, len(_SPACE), step):
@@ -778,14 +836,12 @@ def _inline_worker (item):
         rep.outcome((w.observation(), tuple(k for k, _ in w.bad)))
         if w.bad:
           _violation(rep, w, dict(part="inline", prog=_prog_to_json(prog), choices=ctx.choices()))
-        elif rep.evaluations % 7000 == 6999:
+        elif not rep.samples and w.nsteps >= 7 and len(ctx.trace) > 4 and any(c for c in ctx.choices()):
           rep.sample(dict(part="inline hub", program=prog_text(prog),
                           environment=[(l, c) for l, c in ctx.labelled() if c], observed=w.text().split("\n")[1:]))
       explore(lambda ctx, prog=prog: run_inline_checked(ctx, prog), dev_bound=dev, on_exec=on_exec)
       n += 1
-      if n % 200 == 0: gc.collect()
   finally:
-    gc.collect(); gc.enable()
     sys.stdout, sys.stderr = old
   rep.extra["programs_inline"] = n
   rep.extra["executions: " + suite] = rep.evaluations
@@ -801,14 +857,18 @@ def _prog_from_json (p):
 
 
 def inline_suites (cfg):
-  """(name, ops, entities, cap on the total number of yields, deviation bound)"""
+  """(name, ops, entities, cap on the total number of yields, deviation bound[, cap on the yields of one script])"""
   if cfg.quick:
-    return [("2 entities, <=4 yields", OPS_QUICK, 2, 4, 1)]
+    return [("2 entities, <=4 yields", OPS_QUICK, 2, 4, 1),
+            ("2 tasks, <=3 yields, nested sub-task calls and zero-timeout Select", OPS_NESTED_CTX, 2, 3, 1, 3, False),
+            ("3 tasks, <=4 yields (<=2 each), sleepers", OPS_SLEEPERS, 3, 4, 1, 2, False)]
   return [("2 entities, <=4 yields", OPS_QUICK, 2, 4, 2),
           ("2 entities, <=6 yields (every ordered pair of scripts of <=3 yields)", OPS_QUICK, 2, 6, 0),
-          ("2 entities, <=4 yields, extended vocabulary", OPS_QUICK + OPS_EXTRA, 2, 4, 1),
+          ("2 entities, <=3 yields, extended vocabulary", OPS_QUICK + OPS_EXTRA, 2, 3, 1),
+          ("2 tasks, <=4 yields, nested sub-task calls and zero-timeout Select", OPS_NESTED_CTX, 2, 4, 2, 3, False),
           ("3 entities, <=3 yields", OPS_QUICK, 3, 3, 1),
-          ("3 entities, <=4 yields", OPS_QUICK, 3, 4, 0)]
+          ("3 entities, <=4 yields", OPS_QUICK, 3, 4, 0),
+          ("3 tasks, <=5 yields (<=2 each), sleepers", OPS_SLEEPERS + ("Se1", "S1", "S0"), 3, 5, 1, 2, False)]
 
 
 # ---------------------------------------------------------------------------------------------------
@@ -833,6 +893,10 @@ THR_PROGRAMS = [
   ((("T", "rec2"), T("Se")), {1: 1.5}),
   ((T("n1", "!"), T("S2", "0")), {}),
   ((T("Se1", "F"), T("Se", "W")), {0: 0.5, 1: 1.5}),
+  # several sleepers: tied deadlines plus a longer one; zero-timeout Select next to a longer sleeper; nested sub-tasks
+  ((T("n1"), T("n1"), T("S2")), {}),
+  ((T("Se0", "S2"), T("S2"), ("T", "once")), {}),
+  ((T("Nus", "0"), T("Ncs")), {}),
 ]
 
 
@@ -921,7 +985,7 @@ def _thr_worker (item):
       if w.bad:
         _violation(rep, w, dict(part="threaded", program=pi, prog=_prog_to_json(prog), fd_at={str(k): v for k, v in fd_at.items()},
                                 funcs=None if funcs is None else list(funcs), choices=ctx.choices()))
-      elif rep.evaluations % 900 == 899:
+      elif not rep.samples and any(t[0] for t in ctx.trace):
         rep.sample(dict(part="threaded hub", program=prog_text(prog), schedule_deviations=[(i, t[2], t[0]) for i, t in enumerate(ctx.trace) if t[0]],
                         observed=w.text().split("\n")[1:]))
       if rep.evaluations % 200 == 0: gc.collect()
@@ -1013,6 +1077,8 @@ def run_epoll_part (cfg, rep):
               break
           rep.evaluations += 1; n += 1
           rep.outcome(("epoll", tuple(obs)))
+          if d == 2 and n % 1000 == 999:
+            rep.sample(dict(part="EpollSelect vs select.select", calls_rl_wl_readable=[list(map(list, c)) for c in seq], both_report=[list(map(list, o)) for o in obs]))
         finally:
           es.close()
   finally:
@@ -1032,19 +1098,22 @@ def run (cfg):
     _STRIDE = int(only.split(":")[1]); only = "inline"
     rep.caps.append("debug subsample 1/%d of the inline programs" % _STRIDE)
   if only in (None, "inline"):
-    for name, ops, nent, total, dev in suites:
-      _SPACE = ProgSpace(ops, nent, total)
+    for su in suites:
+      name, ops, nent, total, dev = su[:5]
+      _SPACE = ProgSpace(ops, nent, total, *su[5:])
       counts[name] = len(_SPACE)
       nchunks = max(1, cfg.workers * 8)
       items = [(i, nchunks, dev, name) for i in range(nchunks)]
       for r in pmap(_inline_worker, items, cfg.workers, seed=cfg.seed):
         rep.merge(r)
   pts = {}
+  del rep.samples[3:]                          # leave room for samples of the other parts
   which = None
   if only and only.startswith("threaded:"):    # debugging aid: one threaded configuration only
     which = int(only.split(":")[1]); only = "threaded"
   if only in (None, "threaded"):
     pts = run_threaded_part(cfg, rep, which)
+  del rep.samples[5:]
   epoll_depth = None
   if only in (None, "epoll"):
     epoll_depth = run_epoll_part(cfg, rep)
@@ -1052,7 +1121,7 @@ def run (cfg):
   for k in ("cpu_ms_inline", "cpu_ms_threaded"):
     if k in rep.extra: rep.extra[k.replace("cpu_ms", "cpu_s")] = round(rep.extra.pop(k) / 1000.0, 1)
   rep.bound = dict(inline_suites=[dict(name=n, vocabulary=list(o), entities=e, total_yields=t, deviations=d, programs=counts.get(n))
-                                  for n, o, e, t, d in suites],
+                                  for n, o, e, t, d in [x[:5] for x in suites]],
                    threaded=[dict(funcs="hand-off functions" if f else "every line of recoco.py", deviations=b) for f, b in threaded_configs(cfg)],
                    threaded_points=pts, epoll_select_call_sequences_depth=epoll_depth)
   rep.rule = ("PART 1 (inline hub): every ordered tuple of entities within the suites listed under `bound` - an entity is a task "
